@@ -984,6 +984,55 @@ impl SctpTransport {
     }
 }
 
+#[cfg(rustrtc_verif)]
+impl SctpTransport {
+    /// Identifier passed to the verification tap for this association.
+    pub fn verif_id(&self) -> usize {
+        Arc::as_ptr(&self.inner) as usize
+    }
+}
+
+/// Verification hooks (compiled only with `--cfg rustrtc_verif`): a forced initial TSN
+/// per local port and a tap that sees every SCTP packet handed in / emitted, in the
+/// order the association's run loop processes them.
+#[cfg(rustrtc_verif)]
+pub mod verif {
+    use parking_lot::Mutex;
+    use std::collections::HashMap;
+    use std::sync::OnceLock;
+
+    pub const TAP_RX: u8 = 0;
+    pub const TAP_TX: u8 = 1;
+
+    type TapFn = dyn Fn(usize, u8, &[u8]) + Send + Sync;
+    static TAP: OnceLock<Box<TapFn>> = OnceLock::new();
+    static FORCED_TSN: OnceLock<Mutex<HashMap<(u16, bool), u32>>> = OnceLock::new();
+
+    /// Install the process-wide tap (first caller wins).
+    pub fn set_tap(f: Box<TapFn>) {
+        let _ = TAP.set(f);
+    }
+
+    pub(crate) fn tap(id: usize, dir: u8, data: &[u8]) {
+        if let Some(f) = TAP.get() {
+            f(id, dir, data);
+        }
+    }
+
+    /// Force the initial TSN chosen by the association bound to `local_port`
+    /// (`initiator` = the side that sends INIT).
+    pub fn force_initial_tsn(local_port: u16, initiator: bool, tsn: u32) {
+        FORCED_TSN
+            .get_or_init(|| Mutex::new(HashMap::new()))
+            .lock()
+            .insert((local_port, initiator), tsn);
+    }
+
+    pub(crate) fn initial_tsn(local_port: u16, initiator: bool) -> Option<u32> {
+        FORCED_TSN.get()?.lock().get(&(local_port, initiator)).copied()
+    }
+}
+
 impl Drop for SctpTransport {
     fn drop(&mut self) {
         *self.inner.state.lock() = SctpState::Closed;
@@ -1501,6 +1550,8 @@ impl SctpInner {
         self.verification_tag.store(local_tag, Ordering::SeqCst);
 
         let initial_tsn = random_u32();
+        #[cfg(rustrtc_verif)]
+        let initial_tsn = verif::initial_tsn(self.local_port, true).unwrap_or(initial_tsn);
         self.next_tsn.store(initial_tsn, Ordering::SeqCst);
 
         let mut init_params = BytesMut::new();
@@ -1547,6 +1598,8 @@ impl SctpInner {
     }
 
     async fn handle_packet(&self, packet: Bytes) -> Result<()> {
+        #[cfg(rustrtc_verif)]
+        verif::tap(self as *const SctpInner as usize, verif::TAP_RX, &packet);
         let now = Instant::now();
         if packet.len() < SCTP_COMMON_HEADER_SIZE {
             return Ok(());
@@ -1699,6 +1752,8 @@ impl SctpInner {
         init_ack_params.put_u16(10);
         // Initial TSN
         let initial_tsn = random_u32();
+        #[cfg(rustrtc_verif)]
+        let initial_tsn = verif::initial_tsn(self.local_port, false).unwrap_or(initial_tsn);
         self.next_tsn.store(initial_tsn, Ordering::SeqCst);
         init_ack_params.put_u32(initial_tsn);
 
@@ -3108,6 +3163,8 @@ impl SctpInner {
             .fetch_add(packet_size as u64, Ordering::Relaxed);
         self.stats_packets_sent.fetch_add(1, Ordering::Relaxed);
 
+        #[cfg(rustrtc_verif)]
+        verif::tap(self as *const SctpInner as usize, verif::TAP_TX, &buf);
         if self.outgoing_packet_tx.send(buf.freeze()).is_err() {
             debug!("Failed to send SCTP packet to transport: channel closed");
             *self.close_reason.lock() = Some("TRANSPORT_CLOSED".into());
